@@ -529,7 +529,9 @@ def gen_ensemble(rng):
     return dict(kind="ensemble", ens=rng.choice(["lattice", "buckshot"]), nested=rng.choice(["DE", "DE2", "NM", "POW"]), ndim=ndim,
                 nbins=[rng.choice([1, 2]) for _ in range(ndim)], npts=rng.choice([2, 3]), seed=rng.randrange(10 ** 6),
                 a=[G.grid(rng, -1, 1) for _ in range(ndim)], lo=[-2.0] * ndim, hi=[2.0] * ndim, steps=rng.choice([2, 3, 5]),
-                inner=rng.choice([2, 3, 4]))
+                inner=rng.choice([2, 3, 4]),
+                # members that stop by themselves (limit / flat history) and are stepped on, or solved a second time, afterwards
+                term=rng.choice(["never", "never", "cog", "cog"]), grow=rng.random() < 0.5, again=rng.random() < 0.3)
 
 
 class QuadCost(object):
@@ -559,13 +561,21 @@ def run_ensemble(case):
                 s.SetNestedSolver(L.solver_classes()[case["nested"]])
                 s.SetStrictRanges(list(case["lo"]), list(case["hi"]))
                 s.SetEvaluationLimits(generations=case["inner"])
-                s.SetTermination(T.VTR(-1.0))
+                s.SetTermination(T.ChangeOverGeneration(1e-4, 2) if case.get("term") == "cog" else T.VTR(-1.0))
                 s.SetObjective(QuadCost(case["a"], tag))
                 snaps = []
-                for k in range(case["steps"]):
-                    s.SetEvaluationLimits(generations=case["inner"] * (k + 1))
+                def snap():
+                    snaps.append(dict(bestX=L._vec(s.bestSolution), bestE=float(s.bestEnergy), ncalls=len(rec.cost_calls),
+                                      pop=[L._vec(p) for p in s.population], popE=[float(e) for e in s.popEnergy],
+                                      members=[dict(pop=[L._vec(p) for p in m.population], popE=[float(e) for e in m.popEnergy])
+                                               for m in s._allSolvers if m is not None]))
+                for k in range(case["steps"] + (4 if "term" in case else 0)):
+                    if case.get("grow", True):
+                        s.SetEvaluationLimits(generations=case["inner"] * (k + 1))
                     s.Step()
-                    snaps.append(dict(bestX=L._vec(s.bestSolution), bestE=float(s.bestEnergy), ncalls=len(rec.cost_calls)))
+                    snap()
+                if case.get("again"):
+                    s.Solve(); snap()
                 return dict(snaps=snaps, calls=[(x, y["s"]) for x, y, _ in rec.cost_calls])
             finally:
                 L.REG.pop(tag, None)
@@ -587,6 +597,179 @@ def oracle_ensemble(case, out):
         if s["bestE"] not in hit:
             f.append(fail("best_energy_is_cost_plus_penalty", site, "ensemble-best-energy-mismatch", dict(step=k, bestE=s["bestE"], cost_there=hit[:2])))
             break
+    # after every iteration each member of the reported population (and of every nested solver's) carries the energy obtained there
+    for k, s in enumerate(out["snaps"]):
+        if f:
+            break
+        made = {}
+        for x, y in out["calls"][:s["ncalls"]]:
+            made.setdefault(tuple(x), set()).add(y)
+        groups = [("ensemble", s.get("pop", []), s.get("popE", []))] + [("member %d" % i, m["pop"], m["popE"]) for i, m in enumerate(s.get("members", []))]
+        for who, pop, popE in groups:
+            for j, (x, e) in enumerate(zip(pop, popE)):
+                if isfinite(e) and e not in made.get(tuple(x), ()):
+                    f.append(fail("member_energy_is_objective", site, "ensemble-population-energy-stale", dict(step=k, who=who, index=j, x=x, e=e, cost_there=sorted(made.get(tuple(x), ()))[:2])))
+                    break
+            if f:
+                break
+    return f
+
+
+# ---- C02 for ensembles: ranges set on the ensemble hold for every member, however the member solver was handed over
+def gen_ensbox(rng):
+    ndim = rng.choice([1, 2, 2])
+    lo = [rng.choice([-1.0, 0.0, 0.5]) for _ in range(ndim)]
+    hi = [l + rng.choice([1.0, 2.0]) for l in lo]
+    side = [rng.choice([-1, 1]) for _ in range(ndim)]
+    # the unconstrained minimum lies outside the box (or, sometimes, inside)
+    a = [(h + rng.choice([0.5, 1.5]) if sd > 0 else l - rng.choice([0.5, 1.5])) if rng.random() < 0.8 else (l + h) / 2 for l, h, sd in zip(lo, hi, side)]
+    how = rng.choice(["class", "class", "instance", "instance", "instance-own-objective"])
+    return dict(kind="ensbox", ens=rng.choice(["lattice", "buckshot"]), nested=rng.choice(["NM", "POW", "DE", "DE2"]), ndim=ndim,
+                nbins=[rng.choice([1, 2]) for _ in range(ndim)], npts=rng.choice([2, 3]), seed=rng.randrange(10 ** 6), a=a, lo=lo, hi=hi,
+                how=how, mode="solve" if how == "instance" or rng.random() < 0.6 else "step", inner=rng.choice([3, 6, 10]),
+                first=rng.choice(["ranges", "nested"]))
+
+
+def run_ensbox(case):
+    import random as _r, io, contextlib, warnings
+    import numpy as np
+    from mystic.solvers import LatticeSolver, BuckshotSolver
+    import mystic.termination as T
+    with warnings.catch_warnings():
+        warnings.simplefilter("ignore")
+        with contextlib.redirect_stdout(io.StringIO()):
+            _r.seed(case["seed"]); np.random.seed(case["seed"] % (2 ** 31))
+            tag = L.new_tag(); rec = L.REG[tag] = L.Rec()
+            try:
+                cost = QuadCost(case["a"], tag)
+                s = LatticeSolver(case["ndim"], case["nbins"]) if case["ens"] == "lattice" else BuckshotSolver(case["ndim"], case["npts"])
+                cls = L.solver_classes()[case["nested"]]
+                def nested():
+                    if case["how"] == "class":
+                        return s.SetNestedSolver(cls)
+                    m = cls(case["ndim"], 4) if case["nested"] in ("DE", "DE2") else cls(case["ndim"])
+                    if case["nested"] in ("DE", "DE2"):
+                        m.SetRandomInitialPoints(list(case["lo"]), list(case["hi"]))
+                    m.SetEvaluationLimits(generations=case["inner"]); m.SetTermination(T.VTR(-1.0))
+                    if case["how"] == "instance-own-objective":
+                        m.SetStrictRanges(list(case["lo"]), list(case["hi"])); m.SetObjective(cost)
+                    s.SetNestedSolver(m)
+                ranges = lambda: s.SetStrictRanges(list(case["lo"]), list(case["hi"]))
+                for f in ((ranges, nested) if case["first"] == "ranges" else (nested, ranges)):
+                    f()
+                s.SetEvaluationLimits(generations=case["inner"])
+                s.SetTermination(T.VTR(-1.0))
+                nstep = 0
+                if case["mode"] == "solve":
+                    s.Solve(cost); nstep = 2
+                else:
+                    s.SetObjective(cost)
+                    while nstep < 40 and not s.Step():
+                        nstep += 1
+                return dict(nstep=nstep, bestX=L._vec(s.bestSolution), bestE=float(s.bestEnergy), calls=[x for x, y, _ in rec.cost_calls],
+                            members=[dict(bestX=L._vec(m.bestSolution), bestE=float(m.bestEnergy)) for m in s._allSolvers if m is not None])
+            finally:
+                L.REG.pop(tag, None)
+
+
+def oracle_ensbox(case, out):
+    site = "ensemble:" + case["ens"] + "/" + case["nested"] + "/" + case["how"]
+    if "__exception__" in out:
+        return [fail("no-crash", site, out["__exception__"], out.get("__msg__"))]
+    f = []
+    inside = lambda x: all(l <= v <= h for v, l, h in zip(x, case["lo"], case["hi"]))
+    bad = [x for x in out["calls"] if not inside(x)]
+    if bad:
+        f.append(fail("cost_never_called_outside", site, "ensemble-member-evaluated-outside-ranges", dict(n=len(bad), of=len(out["calls"]), first=bad[0])))
+    if isfinite(out["bestE"]) and not inside(out["bestX"]):
+        f.append(fail("finite_best_inside", site, "ensemble-best-outside-ranges", dict(bestX=out["bestX"], bestE=out["bestE"])))
+    for i, m in enumerate(out["members"]):
+        if isfinite(m["bestE"]) and not inside(m["bestX"]):
+            f.append(fail("finite_best_inside", site, "ensemble-member-best-outside-ranges", dict(member=i, bestX=m["bestX"], bestE=m["bestE"])))
+            break
+    return f
+
+
+# ---- C04 across a restart: the periodic dump (SetSaveFrequency) restored with LoadSolver has the counters and monitors of the generation it was
+# taken at, and keeps counting from there
+def gen_restart(rng):
+    ndim = rng.choice([1, 2, 3])
+    return dict(kind="restart", solver=rng.choice(["DE", "DE2", "NM", "POW"]), ndim=ndim, npop=rng.choice([4, 6]), seed=rng.randrange(10 ** 6),
+                a=[G.grid(rng, -1, 1) for _ in range(ndim)], x0=[G.grid(rng, -2, 2) for _ in range(ndim)], freq=rng.choice([1, 2, 3]),
+                steps=rng.choice([3, 4, 5, 7]), more=rng.choice([1, 2, 3]), ranges=rng.random() < 0.4, emon=rng.random() < 0.7)
+
+
+def run_restart(case):
+    import random as _r, io, contextlib, warnings, tempfile, os
+    import numpy as np
+    from mystic.solvers import LoadSolver
+    from mystic.monitors import Monitor
+    import mystic.termination as T
+    with warnings.catch_warnings():
+        warnings.simplefilter("ignore")
+        with contextlib.redirect_stdout(io.StringIO()):
+            _r.seed(case["seed"]); np.random.seed(case["seed"] % (2 ** 31))
+            tag = L.new_tag(); rec = L.REG[tag] = L.Rec()
+            fd, path = tempfile.mkstemp(suffix=".pkl", prefix="verif_restart_"); os.close(fd); os.remove(path)
+            try:
+                s = L.build_solver(case["solver"], case["ndim"], case["npop"])
+                if case["solver"] in ("DE", "DE2"):
+                    s.SetRandomInitialPoints([-2.0] * case["ndim"], [2.0] * case["ndim"])
+                else:
+                    s.SetInitialPoints(list(case["x0"]))
+                if case["ranges"]:
+                    s.SetStrictRanges([-2.0] * case["ndim"], [2.0] * case["ndim"])
+                if case["emon"]:
+                    s.SetEvaluationMonitor(Monitor())
+                s.SetGenerationMonitor(Monitor())
+                s.SetEvaluationLimits(generations=1000, evaluations=100000)
+                s.SetTermination(T.VTR(-1.0))
+                s.SetObjective(QuadCost(case["a"], tag))
+                s.SetSaveFrequency(case["freq"], path)
+                view = lambda q: dict(gens=int(q.generations), evals=int(q.evaluations), nsm=len(q._stepmon), nem=len(q._evalmon), ncalls=len(rec.cost_calls),
+                                      bestE=float(q.bestEnergy), lastE=(float(q._stepmon._y[-1]) if len(q._stepmon) else None), neh=len(q.energy_history or []))
+                orig = []
+                for k in range(case["steps"]):
+                    s.Step(); orig.append(view(s))
+                if not os.path.exists(path):
+                    return dict(nstep=case["steps"], orig=orig, restored=None, cont=[])
+                r = LoadSolver(path)
+                restored = view(r)
+                cont = []
+                for k in range(case["more"]):
+                    n0 = len(rec.cost_calls); r.Step(); v = view(r); v["new_calls"] = len(rec.cost_calls) - n0; cont.append(v)
+                return dict(nstep=case["steps"], orig=orig, restored=restored, cont=cont)
+            finally:
+                L.REG.pop(tag, None)
+                if os.path.exists(path):
+                    os.remove(path)
+
+
+def oracle_restart(case, out):
+    site = "restart:" + case["solver"]
+    if "__exception__" in out:
+        return [fail("no-crash", site, out["__exception__"], out.get("__msg__"))]
+    f = []
+    r = out["restored"]
+    if r is None:
+        return f
+    # the dump was taken at the end of one of the Steps of the original run: the restored solver shows that Step's counters and monitors
+    keys = ("gens", "evals", "nsm", "nem", "bestE", "lastE", "neh")
+    if not any(all(o[k] == r[k] for k in keys) for o in out["orig"]):
+        near = min(out["orig"], key=lambda o: abs(o["evals"] - r["evals"]))
+        f.append(fail("counters_survive_restart", site, "restored-solver-is-no-generation-of-the-run",
+                      dict(restored={k: r[k] for k in keys}, nearest={k: near[k] for k in keys}, fields=[k for k in keys if near[k] != r[k]])))
+        return f
+    # ... and keeps counting its own evaluations and generations from there
+    prev = r
+    for v in out["cont"]:
+        if v["evals"] - prev["evals"] != v["new_calls"]:
+            f.append(fail("counter_is_calls", site, "restored-solver-miscounts-evaluations", dict(before=prev["evals"], after=v["evals"], new_calls=v["new_calls"])))
+            break
+        if v["gens"] != prev["gens"] + 1 or (v["nsm"] - prev["nsm"] not in (0, 1, 2)):
+            f.append(fail("generation_counter", site, "restored-solver-miscounts-generations", dict(before=[prev["gens"], prev["nsm"]], after=[v["gens"], v["nsm"]])))
+            break
+        prev = v
     return f
 
 
@@ -619,7 +802,7 @@ def coq_preamble():
 
 def make_coq_terms(mask):
     def coq_terms(case, out):
-        if "__exception__" in out or case.get("kind") in ("collapse", "ensemble", "wrapper") or not L.modelled(case):
+        if "__exception__" in out or case.get("kind") in ("collapse", "ensemble", "wrapper", "ensbox", "restart") or not L.modelled(case):
             return []
         if sum(len(r.get("inputs", [])) for r in out.get("opres", [])) > MAX_MODEL_ITERS:
             return []      # a run of thousands of iterations (e.g. every energy infinite until the default limits): oracle only
@@ -632,7 +815,7 @@ def coq_debug(case, out, k):
 
 
 def classify(case, out):
-    if case.get("kind") in ("collapse", "ensemble", "wrapper"):
+    if case.get("kind") in ("collapse", "ensemble", "wrapper", "ensbox", "restart"):
         tags = ["kind:" + case["kind"], "solver:" + case.get("solver", case.get("nested", "?"))]
         if case["kind"] == "wrapper" and "__exception__" not in out:
             tags += ["warnflag:%d" % out["warnflag"], "limits:%s/%s" % ("default" if case["maxiter"] is None else "given", "default" if case["maxfun"] is None else "given")]
